@@ -1,4 +1,5 @@
 import CstModel.Props.C03
+import CstModel.Proofs.WalkN
 import CstModel.Proofs.Walk
 open Cst.C03
 #print axioms parent_child
@@ -15,3 +16,8 @@ open Cst.C03
 #print axioms Cst.walkNextT_sim
 #print axioms Cst.walk_sim
 #print axioms Cst.preorderWithTokens_spec
+#print axioms Cst.firstChild_path
+#print axioms Cst.nextSibling_path
+#print axioms Cst.walkNextN_sim
+#print axioms Cst.walk_preN
+#print axioms Cst.preorder_nodes_spec
